@@ -64,8 +64,53 @@ def strategy_for(t):
     return strat
 
 
+def state_of(b):
+    """everything the block object holds, dates included (one and the same object is looked at twice: nothing in it has a reason to differ)"""
+    from .c20 import deep_snapshot
+
+    def dates(o):
+        return sorted((k, repr(v)) for k, v in vars(o).items() if k.endswith("_date")) if hasattr(o, "__dict__") else []
+
+    return {"content": deep_snapshot(b), "dates": dates(b), "item-dates": [dates(x) for x in iter(b)]}
+
+
+class hostile_stdout:
+    """the process's standard streams are not a UTF-8 terminal: 'ascii' - they encode to ASCII only (PYTHONIOENCODING=ascii, the C locale);
+    'closed' - they are closed (a daemon, a GUI program, pythonw). A lookup has no business writing to them; if it does it fails here."""
+
+    def __init__(self, kind):
+        self.kind = kind
+
+    def __enter__(self):
+        import io
+        import sys
+
+        self.saved = (sys.stdout, sys.stderr)
+        if self.kind == "ascii":
+            sys.stdout = io.TextIOWrapper(io.BytesIO(), encoding="ascii", errors="strict")
+            sys.stderr = io.TextIOWrapper(io.BytesIO(), encoding="ascii", errors="strict")
+        elif self.kind == "closed":
+            a, b_ = io.StringIO(), io.StringIO()
+            a.close()
+            b_.close()
+            sys.stdout, sys.stderr = a, b_
+        elif self.kind == "none":
+            sys.stdout = sys.stderr = None      # what pythonw / a windowed application has
+
+    def __exit__(self, *exc):
+        import sys
+
+        sys.stdout, sys.stderr = self.saved
+
+
 def make_run(t):
     def run(ctx, case):
+        streams = ["ascii", "closed", "none", "normal"][(len(case["spec"].get("tracks") or case["spec"].get("signals") or case["spec"].get("events") or []) +
+                                                         (1 if case.get("origin") == "decoded" else 0)) % 4]
+        with hostile_stdout(streams):
+            run_(ctx, case, streams)
+
+    def run_(ctx, case, streams):
         spec = case["spec"]
         ok, b = ctx.must(lambda: specs.build(spec), "build", f"constructing a valid {t} block")
         if not ok:
@@ -76,6 +121,7 @@ def make_run(t):
             if not ok:
                 return
         before = specs.lib_write(b)
+        state_before = state_of(b)
         items = list(iter(b))
         n = len(items)
         labels = [it.label for it in items]
@@ -226,6 +272,10 @@ def make_run(t):
         after = specs.lib_write(b)
         if after != before or [id(x) for x in iter(b)] != [id(x) for x in items]:
             ctx.fail("block-changed", f"{t}: the block's encoding or item list changed during read-only access")
+        dd = specs.first_diff(state_of(b), state_before)
+        if dd:
+            ctx.fail(f"block-attribute-changed-{dd[0].strip('/').split('/')[-1]}", f"{t}: after lookups, membership tests and iteration only, {dd[0]} of the block object is "
+                                                                                   f"{str(dd[1])[:60]!r}; before them it was {str(dd[2])[:60]!r}")
         # second phase: the accessors must keep describing the block after it is edited (no stale view)
         from .c16 import make_track
 
@@ -304,7 +354,7 @@ def make_run(t):
                 ctx.fail("after-remove/membership-stale", f"{t}: after removing the first item, membership of its label is stale")
         dup = len(set(labels)) < len(labels)
         ctx.case(case, dup, labels=[t, f"items={min(n, 3)}{'+' if n >= 3 else ''}", "duplicate-label" if dup else "unique-labels",
-                                    "empty-label" if "" in labels else "no-empty-label", "origin:" + case.get("origin", "built")])
+                                    "empty-label" if "" in labels else "no-empty-label", "origin:" + case.get("origin", "built"), "std-streams:" + streams])
 
     return run
 
